@@ -95,7 +95,8 @@ let parse_op line : op =
   | [ "connect"; w; p; pos ] -> OConnect (id_of_tok w, pin_of_tok p, optnat_of_tok pos)
   | [ "disconnect"; w; p ] -> ODisconnect (id_of_tok w, pin_of_tok p)
   | "disconnectfrom" :: w :: rest -> let (l, _) = take_n rest in ODisconnectFrom (id_of_tok w, List.map pin_of_tok l)
-  | [ "setref"; x; v ] -> OSetReference (id_of_tok x, optid_of_tok v)
+  | "setref" :: x :: v :: ([] | [ _ ]) -> (* optional 4th token: `del inst.reference` instead of assigning None *)
+    OSetReference (id_of_tok x, optid_of_tok v)
   | [ "settop"; n; a ] ->
     let arg = if a = "N" then TopNone
       else if a.[0] = 'I' then TopInst (id_of_tok (String.sub a 1 (String.length a - 1)))
@@ -107,9 +108,10 @@ let parse_op line : op =
   | [ "ddel"; e; k ] -> ODDel (id_of_tok e, str_of_tok k)
   | [ "dpop"; e; k ] -> ODPop (id_of_tok e, str_of_tok k)
   | [ "downto"; b; v ] -> OSetDownto (id_of_tok b, v = "1")
-  | [ "scalar"; b; v ] -> OSetScalar (id_of_tok b, v = "1")
+  | "scalar" :: b :: v :: ([] | [ _ ]) -> (* optional 4th token: spelled through the inverse attribute is_array *)
+    OSetScalar (id_of_tok b, v = "1")
   | [ "lower"; b; v ] -> OSetLower (id_of_tok b, z_of_int (int_of_string v))
-  | [ "direction"; p; d ] -> OSetDirection (id_of_tok p, (match d with "0" -> DUndef | "1" -> DInout | "2" -> DIn | _ -> DOut))
+  | "direction" :: p :: d :: ([] | [ _ ]) -> OSetDirection (id_of_tok p, (match d with "0" -> DUndef | "1" -> DInout | "2" -> DIn | _ -> DOut))
   | [ "policy"; p ] -> OSetPolicy (if p = "1" then PolEdif else PolDefault)
   | _ -> failwith ("bad op: " ^ line)
 
